@@ -366,6 +366,12 @@ StringDictionaryHHTFC::StringDictionaryHHTFC(IteratorDictString *it,
   delete builderHT;
   tableHU = builderHU->getTable();
   delete builderHU;
+
+  // The coders also decode from now on: they need their decoding tables
+  delete coderHT;
+  coderHT = new StatCoder(tableHT, codewordsHT);
+  delete coderHU;
+  coderHU = new StatCoder(tableHU, codewordsHU);
 }
 
 unsigned long StringDictionaryHHTFC::locate(uchar *str, uint strLen) {
